@@ -1,4 +1,5 @@
 import SelenModel.Lemmas.Lp
+import SelenModel.Lemmas.Simplex
 /-
 C09 — LP solver: Optimal means feasible and optimal; Infeasible means infeasible.
 
@@ -9,8 +10,12 @@ C09 — LP solver: Optimal means feasible and optimal; Infeasible means infeasib
    only for problems with no feasible point, and a warm-started dual solve agrees with a cold
    primal solve."
 
-Level: CERTIFICATE theory.  The simplex pivoting / LU code is not modelled.  Proved here, for all
-problems and dimensions, in exact rational arithmetic (`Model/Lp.lean`):
+Level: CERTIFICATE theory plus a model of the PIVOTING RULES.  `Model/Lp.lean` has the problem,
+the standard forms and the terminal-state checker; `Model/Simplex.lean` has one iteration of the
+code's loops (`pivot`: stop test, entering rule, ratio test, swap, refactorisation with the LU
+pivot threshold), the Phase I / Phase II loops and `solvePrimal`, at exact rationals with the
+tolerances as parameters; the floating-point LU itself is not modelled.  Proved here, for all
+problems and dimensions, in exact rational arithmetic:
 
 * a terminal state accepted by the executable checker `legalOptimal` (tolerances 0) is feasible
   for the standard form and optimal (`C09_weak_duality`, `C09_legal_optimal_is_optimal`;
@@ -27,8 +32,20 @@ problems and dimensions, in exact rational arithmetic (`Model/Lp.lean`):
   when `l = 0 ∧ u = +∞` (`C09_dual_standard_form_partial`, `…_counterexample`); two legal
   terminal states of the same problem have the same objective (`C09_warmstart_agrees`).
 
+* one `pivot` from a primal-feasible basis keeps primal feasibility (tolerance 0:
+  `C09_pivot_keeps_feasible`; counterexample for a positive tolerance:
+  `C09_pivot_tolerance_counterexample`), never decreases the objective (`C09_pivot_monotone`, any
+  tolerance), its stop test yields a `legalOptimal` terminal state (`C09_stop_is_optimal`, `…_exact`,
+  `…_tol`), its "no leaving row" answer exhibits an unbounded ray (`C09_unbounded_sound`);
+  the whole Phase II loop is sound at tolerance 0 (`C09_phase2_sound`), end to end for the bounded
+  problem when `phase_one` accepts the slack basis (`C09_run_sound_slack`);
+  Phase I is sound up to its hand-over (`C09_phase1_sound`), and the hand-over with an artificial
+  column left in the basis is not (`C09_phase1_residue_counterexample`).
+
 That a run of the real code ends in a legal terminal state is VALIDATED per run by the
-correspondence check (suite `lp`), not proved.  On the pinned tree it fails when Phase I is
+correspondence check (suite `lp`), not proved; that it walks the basis sequence of `solvePrimal`
+is validated by the op `lp.trace` (hook H10) on the runs in which no float feeding a decision was
+rounded.  On the pinned tree it fails when Phase I is
 needed (`C09_optimal_counterexample`: a recorded run), so the validated region carries the guard
 `noPhaseOne` (`C09_optimal_partial`).  IEEE rounding is outside the theorems: the driver
 recomputes the terminal state exactly from the returned basis and compares the returned floats
@@ -314,6 +331,269 @@ theorem C09_optimal_partial (P : Problem) (hw : P.wf = true) (hg : noPhaseOne 0 
       ∀ x, feasible P x = true → dot P.c x ≤ r.objective :=
   ⟨C09_guard_feasible P hw hg, C09_optimal P hw r hc ho⟩
 
+/-! ### the pivoting rules (`Model/Simplex.lean`)
+
+`pivot` is one iteration of the code's loops (both phases): reduced costs, stop test
+`is_dual_feasible` (all `≤ otol`), `find_entering_variable` (largest reduced cost above 0, first
+non-basic position on ties), search direction, `find_leaving_variable` (rows with `d_i > ftol`,
+ratio `max(0, x_i)/d_i`, first basis position on ties), `swap`, `factorize`.  That the real code
+walks the same basis sequence is validated by the op `lp.trace` on runs without rounding. -/
+
+/-- a basis is primal feasible when a feasible point of the standard form vanishes off it -/
+def PrimalFeasibleBasis (S : Std) (basic : List Nat) : Prop :=
+  ∃ z, stdFeasible S z = true ∧ offBasis basic none 0 z = true
+
+/-- exact arithmetic, feasibility tolerance 0: a ratio-test pivot from a primal-feasible basis
+yields a primal-feasible basis (the point `z + θ·η` of the edge, `θ` = the winning ratio) -/
+theorem C09_pivot_keeps_feasible (S : Std) (otol : Rat) (st st' : Bas) (z : Vec)
+    (h : pivot S 0 otol st = .next st') (hz : basicPoint S st.basic = some z) (hz0 : ∀ w ∈ z, 0 ≤ w) :
+    PrimalFeasibleBasis S st'.basic := by
+  obtain ⟨z1, y, k, v, eta, l, θ, hz1, hy, hk, he, hl, rfl⟩ := unpack_next S 0 otol st st' h
+  rw [hz] at hz1; cases hz1
+  have D := pivotData_of S 0 st z y eta k v hz hy hk he
+  obtain ⟨_, _, hlen, hb, hnn, hoff, _⟩ := pivot_point D Rat.le_refl hz0 l θ hl
+  exact ⟨_, (stdFeasible_iff _ _).mpr ⟨hlen, hnn rfl, hb⟩, hoff⟩
+
+/-- any feasibility tolerance `ftol ≥ 0`: the pivot moves along an edge on which the objective of
+the maximisation form does not decrease: the new basis carries a solution `z'` of `A z' = b`,
+vanishing off the new basis, with `c·z' = c·z + θ·r_e`, `θ ≥ 0`, `r_e > 0` -/
+theorem C09_pivot_monotone (S : Std) (ftol otol : Rat) (hf : 0 ≤ ftol) (st st' : Bas) (z : Vec)
+    (h : pivot S ftol otol st = .next st') (hz : basicPoint S st.basic = some z) (hz0 : ∀ w ∈ z, 0 ≤ w) :
+    ∃ z', z'.length = S.c.length ∧ matVec S.a z' = S.b ∧ offBasis st'.basic none 0 z' = true ∧
+      dot S.c z ≤ dot S.c z' := by
+  obtain ⟨z1, y, k, v, eta, l, θ, hz1, hy, hk, he, hl, rfl⟩ := unpack_next S ftol otol st st' h
+  rw [hz] at hz1; cases hz1
+  have D := pivotData_of S ftol st z y eta k v hz hy hk he
+  obtain ⟨hθ, _, hlen, hb, _, hoff, hobj⟩ := pivot_point D hf hz0 l θ hl
+  refine ⟨_, hlen, hb, hoff, ?_⟩
+  rw [hobj]
+  have := Rat.mul_nonneg hθ (Rat.le_of_lt D.vpos)
+  grind
+
+/-- with a positive feasibility tolerance the ratio test ignores rows whose direction entry is in
+`(0, ftol]`, and the pivot can leave the feasible region (finding `lp-pivot-abs`):
+`max x s.t. (5/1024)·x ≤ 1, 0 ≤ x ≤ 1000` with `ftol = 1/100`: from the feasible slack basis
+`[1, 2]` the pivot skips the row (5/1024 ≤ 1/100), takes the bound row and lands on the basis
+`[1, 0]`, whose basic solution has the row slack `1 − 5000/1024 < 0` -/
+theorem C09_pivot_tolerance_counterexample :
+    let P : Problem := { c := [1], a := [[5/1024]], b := [1], lo := [0], up := [some 1000] }
+    let st : Bas := Bas.initial 3 2
+    pivot (toStd P) (1/100) (1/1000000) st = .next { basic := [1, 0], nonbasic := [2] } ∧
+      basicPoint (toStd P) st.basic = some [0, 1, 1000] ∧
+      basicPoint (toStd P) [1, 0] = some [1000, 1 - 5000/1024, 0] := by
+  decide +kernel
+
+/-- when the stop test fires (no reduced cost above `otol`) the basis, its basic solution and its
+dual values form a terminal state accepted by the checker `legalOptimal` with the same
+tolerances — for a well-formed basis whose basic solution is within `ftol` of feasibility -/
+theorem C09_stop_is_optimal (S : Std) (ftol otol : Rat) (st : Bas) (z : Vec)
+    (h : pivot S ftol otol st = .stop) (hz : basicPoint S st.basic = some z)
+    (hbo : basisOk S.a.length S.c.length st.basic = true)
+    (hcover : ∀ j, j < S.c.length → st.basic.contains j = false → j ∈ st.nonbasic)
+    (hprimal : ∀ w ∈ z, -ftol ≤ w) :
+    ∃ y, legalOptimal S ftol otol st.basic z y = true := by
+  obtain ⟨z1, y, hz1, hy, hrc⟩ := unpack_stop S ftol otol st h
+  rw [hz] at hz1; cases hz1
+  exact ⟨y, stop_legal S ftol otol st z y hz hy hrc hbo hcover hprimal⟩
+
+/-- tolerance 0: the stop is an optimum of the standard form -/
+theorem C09_stop_is_optimal_exact (S : Std) (st : Bas) (z : Vec)
+    (h : pivot S 0 0 st = .stop) (hz : basicPoint S st.basic = some z)
+    (hbo : basisOk S.a.length S.c.length st.basic = true)
+    (hcover : ∀ j, j < S.c.length → st.basic.contains j = false → j ∈ st.nonbasic)
+    (hprimal : ∀ w ∈ z, 0 ≤ w) :
+    stdFeasible S z = true ∧ ∀ z', stdFeasible S z' = true → dot S.c z' ≤ dot S.c z := by
+  obtain ⟨y, hy⟩ := C09_stop_is_optimal S 0 0 st z h hz hbo hcover (fun w hw => by have := hprimal w hw; grind)
+  exact C09_legal_optimal_is_optimal S st.basic z y hy
+
+/-- with tolerances: every exactly feasible point `z'` has `c·z' ≤ c·z + otol·Σ z'` -/
+theorem C09_stop_is_optimal_tol (S : Std) (ftol otol : Rat) (ho : 0 ≤ otol) (st : Bas) (z : Vec)
+    (h : pivot S ftol otol st = .stop) (hz : basicPoint S st.basic = some z)
+    (hbo : basisOk S.a.length S.c.length st.basic = true)
+    (hcover : ∀ j, j < S.c.length → st.basic.contains j = false → j ∈ st.nonbasic)
+    (hprimal : ∀ w ∈ z, -ftol ≤ w) :
+    ∀ z', stdFeasible S z' = true → dot S.c z' ≤ dot S.c z + otol * sumv z' := by
+  obtain ⟨y, hy⟩ := C09_stop_is_optimal S ftol otol st z h hz hbo hcover hprimal
+  exact (C09_legal_optimal_tol S ftol otol st.basic z y ho hy).2.2.2
+
+/-- tolerance 0: when no row passes the ratio test the LP is unbounded along the exhibited ray
+`η ≥ 0`, `A η = 0`, `c·η = r_e > 0`: every `z + t·η` (`t ≥ 0`) is feasible and the objective
+exceeds every bound -/
+theorem C09_unbounded_sound (S : Std) (otol : Rat) (st : Bas) (z : Vec)
+    (h : pivot S 0 otol st = .unbounded) (hz : basicPoint S st.basic = some z) (hz0 : ∀ w ∈ z, 0 ≤ w) :
+    ∃ eta ρ, 0 < ρ ∧ (∀ t, 0 ≤ t → stdFeasible S (addv z (smul t eta)) = true ∧
+        dot S.c (addv z (smul t eta)) = dot S.c z + t * ρ) ∧
+      ∀ K : Rat, ∃ z', stdFeasible S z' = true ∧ K < dot S.c z' := by
+  obtain ⟨z1, y, k, v, eta, hz1, hy, hk, he, hl⟩ := unpack_unbounded S 0 otol st h
+  rw [hz] at hz1; cases hz1
+  have D := pivotData_of S 0 st z y eta k v hz hy hk he
+  have he0 := pivot_ray_nonneg D hl
+  refine ⟨eta, v, D.vpos, fun t ht => ray_point_feasible D hz0 he0 t ht, ?_⟩
+  intro K
+  let t : Rat := (if K - dot S.c z < 0 then 0 else (K - dot S.c z) / v) + 1
+  have hv := D.vpos
+  have ht : 0 ≤ t := by
+    show 0 ≤ (if K - dot S.c z < 0 then 0 else (K - dot S.c z) / v) + 1
+    split
+    · grind
+    · rename_i hh
+      have := div_nonneg_of (K - dot S.c z) v hv (by grind)
+      grind
+  obtain ⟨hfe, hob⟩ := ray_point_feasible D hz0 he0 t ht
+  refine ⟨_, hfe, ?_⟩
+  rw [hob]
+  show K < dot S.c z + ((if K - dot S.c z < 0 then 0 else (K - dot S.c z) / v) + 1) * v
+  split
+  · grind
+  · have : (K - dot S.c z) / v * v = K - dot S.c z := by grind
+    grind
+
+/-- run level, exact arithmetic (tolerances 0): from a basis that is well-formed, covers the columns
+together with `nonbasic`, has independent columns and a non-negative basic solution, the Phase II
+loop of the model can only answer `Optimal` at an optimum of the standard form and `Unbounded` on
+an unbounded one (every basis it visits stays primal feasible: `inv_next`, `nonneg_next`) -/
+theorem C09_phase2_sound (S : Std) : ∀ (fuel : Nat) (st : Bas) (tr : List Event), BasisInv S st →
+    (∀ z, basicPoint S st.basic = some z → ∀ w ∈ z, 0 ≤ w) →
+    ((phase2 S 0 0 fuel st tr).2.1 = Outcome.optimal →
+        ∃ zf y, basicPoint S (phase2 S 0 0 fuel st tr).2.2.basic = some zf ∧
+          legalOptimal S 0 0 (phase2 S 0 0 fuel st tr).2.2.basic zf y = true) ∧
+    ((phase2 S 0 0 fuel st tr).2.1 = Outcome.unbounded →
+        ∀ K : Rat, ∃ z', stdFeasible S z' = true ∧ K < dot S.c z') := by
+  intro fuel
+  induction fuel with
+  | zero =>
+    intro st tr _ _
+    simp only [phase2]
+    exact ⟨(fun h => nomatch h), (fun h => nomatch h)⟩
+  | succ fuel ih =>
+    intro st tr hI hz
+    simp only [phase2]
+    cases hp : pivot S 0 0 st with
+    | stop =>
+      simp only
+      refine ⟨fun _ => ?_, (fun h => nomatch h)⟩
+      obtain ⟨z, y, hz1, _, _⟩ := unpack_stop S 0 0 st hp
+      obtain ⟨y', hy'⟩ := C09_stop_is_optimal S 0 0 st z hp hz1 hI.ok hI.cover
+        (fun w hw => by have := hz z hz1 w hw; grind)
+      exact ⟨z, y', hz1, hy'⟩
+    | unbounded =>
+      simp only
+      refine ⟨(fun h => nomatch h), fun _ => ?_⟩
+      obtain ⟨z, y, k, v, eta, hz1, _, _, _, _⟩ := unpack_unbounded S 0 0 st hp
+      obtain ⟨_, _, _, _, hK⟩ := C09_unbounded_sound S 0 st z hp hz1 (hz z hz1)
+      exact hK
+    | next st' =>
+      simp only
+      exact ih st' _ (inv_next S 0 0 Rat.le_refl st st' hI hp) (nonneg_next S 0 st st' hI hp hz)
+    | singular =>
+      simp only
+      exact ⟨(fun h => nomatch h), (fun h => nomatch h)⟩
+    | err =>
+      simp only
+      exact ⟨(fun h => nomatch h), (fun h => nomatch h)⟩
+
+/-- end to end for the bounded problem, exact arithmetic, when `phase_one` accepts the slack basis
+(its basic solution `z0` is non-negative on the basis: the test `is_primal_feasible`): an `Optimal`
+answer of the Phase II loop started there is a feasible point `x = z[..n] + l` of
+`max c·x, Ax ≤ b, l ≤ x ≤ u` that no feasible point beats, with reported objective `c·x`; an
+`Unbounded` answer means the problem has feasible points of arbitrarily large objective -/
+theorem C09_run_sound_slack (P : Problem) (hw : P.wf = true) (z0 : Vec) (fuel : Nat) (tr : List Event)
+    (hz0 : basicPoint (toStd P) (Bas.initial (toStd P).c.length (toStd P).a.length).basic = some z0)
+    (hpf : ∀ j ∈ (Bas.initial (toStd P).c.length (toStd P).a.length).basic, 0 ≤ z0.getD j 0) :
+    let r := phase2 (toStd P) 0 0 fuel (Bas.initial (toStd P).c.length (toStd P).a.length) tr
+    (r.2.1 = Outcome.optimal → ∃ zf, basicPoint (toStd P) r.2.2.basic = some zf ∧
+        feasible P (backX P zf) = true ∧ backObj P zf = dot P.c (backX P zf) ∧
+        ∀ x, feasible P x = true → dot P.c x ≤ dot P.c (backX P zf)) ∧
+    (r.2.1 = Outcome.unbounded → ∀ K : Rat, ∃ x, feasible P x = true ∧ K < dot P.c x) := by
+  intro r
+  have hW := wf_of P hw
+  have hI := slack_basis_inv P hW
+  have hnn : ∀ z, basicPoint (toStd P) (Bas.initial (toStd P).c.length (toStd P).a.length).basic = some z →
+      ∀ w ∈ z, 0 ≤ w := by
+    intro z hz
+    rw [hz0] at hz; cases hz
+    obtain ⟨a1, _, a3⟩ := basicPoint_spec _ _ z0 hz0
+    apply forall_mem_of_getD
+    intro i hi
+    by_cases hb : (Bas.initial (toStd P).c.length (toStd P).a.length).basic.contains i = true
+    · exact hpf i (by simpa using hb)
+    · rw [offBasis_spec _ none z0 0 a3 i hi (by simpa using hb) (by simp)]; exact Rat.le_refl
+  obtain ⟨h1, h2⟩ := C09_phase2_sound (toStd P) fuel _ tr hI hnn
+  constructor
+  · intro ho
+    obtain ⟨zf, y, hzf, hl⟩ := h1 ho
+    have hopt := C09_optimal P hw ⟨.optimal, backX P zf, backObj P zf, r.2.2.basic⟩ (fun _ => ⟨zf, y, hl, rfl, rfl⟩) rfl
+    simp only at hopt
+    exact ⟨zf, hzf, hopt.1, hopt.2.1, fun x hx => by have h3 := hopt.2.2 x hx; rw [← hopt.2.1]; exact h3⟩
+  · intro hu K
+    obtain ⟨z', hf, hK⟩ := h2 hu (K - dot P.c P.lo)
+    obtain ⟨hfe, hob⟩ := (C09_standard_form_equiv P hw).2 z' hf
+    refine ⟨backX P z', hfe, ?_⟩
+    rw [hob, backObj]
+    grind
+
+/-- Phase I, exact arithmetic.  For a well-formed standard form `S` and its auxiliary problem:
+(1) if `S` is feasible, every legal optimum of the auxiliary problem has artificial sum 0;
+(2) a feasible point of the auxiliary problem with artificial sum 0 restricts to a feasible point
+    of `S`, and if it vanishes off `basic` so does the restriction: the basis handed to Phase II
+    (all of whose columns are original ones) is primal feasible;
+(3) a legal optimum with positive artificial sum proves `S` infeasible -/
+theorem C09_phase1_sound (S : Std) (hw : S.wf = true) :
+    (∀ z basis w y, stdFeasible S z = true → legalOptimal (phase1Std S) 0 0 basis w y = true →
+        artSum (phase1Std S) w = 0) ∧
+    (∀ w basic, stdFeasible (phase1Std S) w = true → artSum (phase1Std S) w = 0 →
+        offBasis basic none 0 w = true →
+        stdFeasible S (w.take S.c.length) = true ∧ offBasis basic none 0 (w.take S.c.length) = true) ∧
+    (∀ basis w y, legalOptimal (phase1Std S) 0 0 basis w y = true → 0 < artSum (phase1Std S) w →
+        ∀ z, stdFeasible S z = false) := by
+  have hW := stdWF_of S hw
+  refine ⟨?_, ?_, ?_⟩
+  · intro z basis w y hz hl
+    obtain ⟨hf, hopt⟩ := C09_legal_optimal_is_optimal _ _ _ _ hl
+    obtain ⟨he, he0⟩ := phase1_embed S hW z hz
+    have h1 := hopt _ he
+    rw [he0] at h1
+    obtain ⟨hc, hnn, _⟩ := phase1_c_le S w hf
+    have := sumv_nonneg _ hnn
+    simp only [artSum]
+    grind
+  · intro w basic hf h0 hoff
+    exact ⟨phase1_zero_feasible S hW w hf (by simp only [artSum] at h0; grind), offBasis_take _ _ _ hoff⟩
+  · intro basis w y hl hpos z
+    cases hz : stdFeasible S z with
+    | false => rfl
+    | true =>
+      exfalso
+      obtain ⟨_, hopt⟩ := C09_legal_optimal_is_optimal _ _ _ _ hl
+      obtain ⟨he, he0⟩ := phase1_embed S hW z hz
+      have h1 := hopt _ he
+      rw [he0] at h1
+      simp only [artSum] at hpos
+      grind
+
+
+/-- residue of finding `lp-phase1`, reproduced by the model: `max 3y − 3z s.t. 2x + 4y + 2z ≤ 24,
+−4y − z ≤ −47/2, −2y ≤ −10, −3 ≤ x, 0 ≤ y ≤ 5, 2 ≤ z ≤ 5` is feasible (x = −3, y = 5, z = 7/2), yet
+Phase I stops at the basis `[4, 2, 1, 7, 10]` of the auxiliary problem with artificial sum 0 and the
+artificial column 10 still basic at level 0; the code does not pivot it out but "fills the
+remaining slot" with an arbitrary original column (simplex_primal.rs:351-385), the resulting basis
+is singular and `solve` returns `Err(NumericalInstability)`.  Same basis sequence in the real code:
+```
+case w
+lp.prob first nv=3 nc=3 c=0,4613937818241073152,13837309855095848960 a=4611686018427387904,4616189618054758400,4611686018427387904;0,13839561654909534208,13830554455654793216;0,13835058055282163712,0; b=4627448617123184640,13850679916489605120,13845191154443747328 lo=13837309855095848960,0,4611686018427387904 up=9218868437227405312,4617315517961601024,4617315517961601024 ftol=4517329193108106637 otol=4517329193108106637
+lp.sol cold
+lp.trace
+``` -/
+theorem C09_phase1_residue_counterexample :
+    let P : Problem := { c := [0, 3, -3], a := [[2, 4, 2], [0, -4, -1], [0, -2, 0]], b := [24, -47/2, -10],
+                         lo := [-3, 0, 2], up := [none, some 5, some 5] }
+    P.wf = true ∧ feasible P [-3, 5, 7/2] = true ∧
+      solvePrimal P (1/1000000) (1/1000000) 10000 =
+        ([(0, [3, 4, 5, 6, 7]), (1, [8, 9, 10, 11, 12]), (1, [8, 9, 1, 11, 12]), (1, [8, 9, 1, 5, 12]),
+          (1, [8, 2, 1, 5, 12]), (1, [8, 2, 1, 6, 12]), (1, [8, 2, 1, 6, 10]), (1, [0, 2, 1, 6, 10]),
+          (1, [4, 2, 1, 6, 10]), (1, [4, 2, 1, 7, 10])], Outcome.errInstability, []) := by
+  decide +kernel
+
 /-! ### non-vacuity -/
 
 /-- max 3x + 2y s.t. x + y ≤ 5, 0 ≤ x, −1/2 ≤ y ≤ 4: hypotheses of `C09_optimal` are satisfiable -/
@@ -336,6 +616,16 @@ example :
 example :
     let P : Problem := { c := [1, 1], a := [[1, 1]], b := [5], lo := [0, 0], up := [none, none] }
     P.wf = true ∧ dualFormGuard P = true ∧ legalOptimal (toDualStd P) 0 0 [0] [5, 0, 0] [1] = true := by
+  decide +kernel
+
+/-- the pivot hypotheses are satisfiable: `max 3x + 2y s.t. x + y ≤ 5, 0 ≤ x, −1/2 ≤ y ≤ 4`: from the
+slack basis `[2, 3]` one pivot (entering column 0) reaches `[0, 3]`, where the stop test fires -/
+example :
+    let P : Problem := { c := [3, 2], a := [[1, 1]], b := [5], lo := [0, -1/2], up := [none, some 4] }
+    pivot (toStd P) 0 0 (Bas.initial 4 2) = .next { basic := [0, 3], nonbasic := [2, 1] } ∧
+      basicPoint (toStd P) [2, 3] = some [0, 0, 11/2, 9/2] ∧
+      pivot (toStd P) 0 0 { basic := [0, 3], nonbasic := [2, 1] } = .stop ∧
+      solvePrimal P 0 0 100 = ([(0, [2, 3]), (2, [2, 3]), (2, [0, 3])], Outcome.optimal, [0, 3]) := by
   decide +kernel
 
 /-- bit patterns: 1.0, 0.5, −2.0, the smallest subnormal, +∞, NaN -/
